@@ -1,6 +1,6 @@
 SPECIFICATION Spec
 CONSTANTS
-  CELLS <- CELLS_q
+  CELLS <- CELLS_cx
   SCR <- SCR_q
   SCRWV <- SCRWV_q
   CENTS <- CENTS_none
@@ -10,6 +10,7 @@ CONSTANTS
   MODFIX = FALSE
   COLFIX = FALSE
   WVFIX = TRUE
+  NTRYFIX = TRUE
   MAXIT = 10
 INVARIANT IndexRow
 INVARIANT IndexCol
